@@ -206,27 +206,43 @@ func show(regs []rt.Reg) string {
 
 func TestProp(t *testing.T) {
 	evid.Rapid(t, "routeset", 4000, 60000, func(t *rapid.T) {
-		methods := []string{"GET"}
-		if rapid.IntRange(0, 4).Draw(t, "twomethods") == 0 {
-			methods = []string{"GET", "POST", "*"}
-		}
-		opts := gen.SetOpts{Methods: methods}
-		if evid.Thorough() {
-			// deeper and larger sets in the thorough tier
-			opts.MaxRoutes, opts.PoolSize, opts.Route.MaxSegs = 12, 8, 6
-		}
-		regs, _ := gen.RouteSet(t, opts)
-		// registration order is part of the case: shuffle by drawing a permutation
-		regs = rapid.Permutation(regs).Draw(t, "order")
-		regs = revalidate(regs)
-		c := Case{Regs: regs, Reqs: gen.Requests(t, regs, 12)}
-		if len(regs) >= 2 && rapid.IntRange(0, 2).Draw(t, "late") == 0 {
-			// some of the routes only arrive after the others have been serving
-			k := rapid.IntRange(1, len(regs)-1).Draw(t, "latefrom")
-			c = Case{Regs: regs[:k], Reqs: gen.Requests(t, regs[:k], 8), Late: regs[k:], LateReqs: gen.Requests(t, regs, 10)}
-		}
+		c := genRouteSetCase(t)
 		evid.Run(t, "routeset", c, func() evid.Outcome { return checkCase(c) })
 	})
+}
+
+// FuzzRouteSet drives the same generator and the same check from the native
+// fuzzer (thorough tier): the bytes are rapid's source of draws, so coverage
+// of the tree code steers which route sets and requests are tried next.
+func FuzzRouteSet(f *testing.F) {
+	evid.FuzzSeeds(f, 24, 4096)
+	f.Fuzz(rapid.MakeFuzz(func(t *rapid.T) {
+		c := genRouteSetCase(t)
+		evid.FuzzRun(t, c, func() evid.Outcome { return checkCase(c) })
+	}))
+}
+
+func genRouteSetCase(t *rapid.T) Case {
+	methods := []string{"GET"}
+	if rapid.IntRange(0, 4).Draw(t, "twomethods") == 0 {
+		methods = []string{"GET", "POST", "*"}
+	}
+	opts := gen.SetOpts{Methods: methods}
+	if evid.Thorough() {
+		// deeper and larger sets in the thorough tier
+		opts.MaxRoutes, opts.PoolSize, opts.Route.MaxSegs = 12, 8, 6
+	}
+	regs, _ := gen.RouteSet(t, opts)
+	// registration order is part of the case: shuffle by drawing a permutation
+	regs = rapid.Permutation(regs).Draw(t, "order")
+	regs = revalidate(regs)
+	c := Case{Regs: regs, Reqs: gen.Requests(t, regs, 12)}
+	if len(regs) >= 2 && rapid.IntRange(0, 2).Draw(t, "late") == 0 {
+		// some of the routes only arrive after the others have been serving
+		k := rapid.IntRange(1, len(regs)-1).Draw(t, "latefrom")
+		c = Case{Regs: regs[:k], Reqs: gen.Requests(t, regs[:k], 8), Late: regs[k:], LateReqs: gen.Requests(t, regs, 10)}
+	}
+	return c
 }
 
 // TestWide stresses sibling ordering with 13..30 siblings under one node.
